@@ -484,7 +484,9 @@ func c18ListEval(tier string, i int) CaseResult {
 		tool := mcp.NewTool("t", mcp.WithDescription("d"))
 		tool.InputSchema = mcp.VerifSchemaForType(cs.T, style)
 		tool.OutputSchema = mcp.VerifSchemaForType(cs.T, style)
-		r.RegisterTool(tool, func(ctx context.Context, req *mcp.CallToolRequest) (*mcp.CallToolResult, error) { return mcp.NewTextResult("x"), nil })
+		r.RegisterTool(tool, func(ctx context.Context, req *mcp.CallToolRequest) (*mcp.CallToolResult, error) {
+			return mcp.NewTextResult("x"), nil
+		})
 		r.Start()
 		cl, err := r.Connect()
 		if err != nil {
